@@ -42,13 +42,14 @@ TIERS = {
 # ---------------------------------------------------------------------------------------------
 # generation
 
-def _gen_docs(r):
-    n = r.choice([1, 2, 2, 3, 3, 4])
-    g = gen.DocGen(r, prefix='', tags=('!force', '!weak', '!del', '!merge'), p_tag=r.choice([0.0, 0.15, 0.3]), max_depth=3,
+def _gen_docs(r, n=None, prefix=''):
+    n = n or r.choice([1, 2, 2, 3, 3, 4])
+    tags = ('!force', '!weak', '!del', '!merge') if r.random() < 0.6 else ('!force', '!weak', '!del', '!merge', '!new', '!unsafe')
+    g = gen.DocGen(r, prefix='', tags=tags, p_tag=r.choice([0.0, 0.15, 0.3]), max_depth=3,
                    keys=['a', 'b', 'c'], key_space=['x', 'y', 'a', 0, 1])
     docs = []
     for i in range(n):
-        g.prefix = f'd{i}_'
+        g.prefix = f'{prefix}d{i}_'
         d = g.mapping(0, min_keys=1, max_keys=3)
         if r.random() < 0.5:
             d['items'].append(['lst', emit.q([g.value(2) for _ in range(r.randrange(1, 4))], r.choice([None, None, '!merge', '!del', '!force']))])
@@ -75,8 +76,14 @@ def _sanitise(node, top=False):
 def _gen_history(r):
     out = []
     for _ in range(r.randrange(0, 4)):
-        c = r.randrange(7)
-        if c == 0:
+        c = r.randrange(11)
+        if c >= 7:
+            docs = _gen_docs(r, n=r.randrange(1, 3), prefix='h')
+            texts = [emit.emit_doc(d) for d in docs]
+            if c == 10:
+                texts.append('!notnew {never_defined_anywhere: 1}\n')      # the random build then fails while merging
+            out.append({'kind': 'random_docs' + ('_failing' if c == 10 else ''), 'texts': texts})
+        elif c == 0:
             out.append({'kind': 'parse_error', 'texts': ['{h1: 1}\n---\n{h2: [1, 2\n']})
         elif c == 1:
             out.append({'kind': 'merge_error', 'texts': ['{h: [1, 2]}\n', '{h: {7: x}}\n']})
@@ -231,9 +238,10 @@ def _mark(node, r, tag, p=0.3):
 
     def walk(n, top):
         if n['k'] in ('map', 'seq', 's') and not n.get('tag') and not top and r.random() < p:
-            if not (n['k'] == 's' and n['v'] is None):
-                n['tag'] = tag
-                n_marked[0] += 1
+            n['tag'] = tag
+            n_marked[0] += 1
+            if n['k'] == 's' and n['v'] is None:
+                n['explicit_null'] = True      # "!unsafe null", not the value-less "!unsafe"
         if n['k'] == 'map':
             for it in n['items']:
                 walk(it[1], False)
